@@ -123,7 +123,16 @@ def run_all(ctx, jobs):
     d = os.path.join(ctx.run_dir, "determ")
     os.makedirs(d, exist_ok=True)
     with concurrent.futures.ThreadPoolExecutor(max_workers=NPAR) as ex:
-        return list(ex.map(lambda j: run_proc(binp, j[0], j[1], d), jobs))
+        res = list(ex.map(lambda j: run_proc(binp, j[0], j[1], d), jobs))
+    # a process that ran out of TIME (rc 124) on a loaded machine is run again, alone among the late ones and with five times the
+    # limit: only a batch that still does not finish counts as a hang (a time-out is not a crash)
+    late = [k for k, r in enumerate(res) if r[0] == 124]
+    if late:
+        ctx.log("%d process(es) timed out; re-running them with a longer limit" % len(late))
+        with concurrent.futures.ThreadPoolExecutor(max_workers=max(1, NPAR // 4)) as ex:
+            for k, r in zip(late, ex.map(lambda k: run_proc(binp, jobs[k][0], jobs[k][1], d, timeout=900), late)):
+                res[k] = r
+    return res
 
 
 # ---------------------------------------------------------------------------------------------------------------
